@@ -194,3 +194,33 @@ contract(F, "TableMethod.add_rule_key", props=["C03", "C11"], lenient=True, alia
          modifies=["*self._rules", "*self._shifts", "self._gap_size", "all:List(Int)"] + _TM_STATE + _TM_FUN,
          notes="the key is stored as given; its initial shifts are computed from well-formed data (call-site obligations of "
                "_compute_shift)")
+
+# ---------------------------------------------------------------- C11: turning an extracted key back into a rule
+from . import rule as _rule_c  # noqa: E402,F401
+from .rule_db import _ufn as _ufn3  # noqa: E402
+klass(F, "ForestRuleExtractor", fields={"classdb": Obj("ClassDB")})
+spec_fn("reversible_of", _ufn3("reversible_of", Bool))
+contract("comb_spec_searcher/strategies/rule.py", "Rule.is_reversible", source="AbstractRule.is_reversible", props=["C11"],
+         verify=False, trusted_reason="strategy.is_reversible(comb_class): deterministic user code (A2)",
+         params={"self": Obj("Rule")}, returns=Bool, ensures=["result == reversible_of(self)"], modifies=[])
+contract("comb_spec_searcher/strategies/rule.py", "Rule.to_reverse_rule", props=["C11"], verify=False,
+         trusted_reason="constructor of the reverse form (ReverseRule.__init__): a fresh rule object; the forms themselves are "
+                        "covered by ReverseRule.shifts/forest_key/children contracts",
+         params={"self": Obj("Rule"), "idx": Int}, returns=Obj("Rule"), ensures=["fresh(result)"],
+         may_raise=["StrategyDoesNotApply"], modifies=[])
+contract(F, "ForestRuleExtractor._rules_for_class", props=["C11"], verify=False, aliases=FAL,
+         trusted_reason="replays the pack on one class (user strategies and factories)",
+         params={"self": Obj("ForestRuleExtractor"), "label": Int}, returns=Seq(Obj("Rule")), yields=["True"], modifies=[])
+contract(F, "ForestRuleExtractor._find_rule", props=["C11"], lenient=True, aliases=FAL,
+         params={"self": Obj("ForestRuleExtractor"), "rule_key": ForestRuleKey}, returns=Obj("Rule"),
+         locals={"potential_rules": List(Obj("Rule")), "normal_rule": Obj("Rule")},
+         may_raise=["RuntimeError", "StrategyDoesNotApply", "AssertionError"], asserts="raise",
+         pure_calls=["get_class"],
+         # the rule handed back has exactly the wanted key
+         ensures=['last_result("Rule.forest_key") == rule_key', 'same(result, last_arg("Rule.forest_key", 0))'],
+         # every candidate is tried in its own form and, when reversible, in ALL its reverse forms -- whatever the bucket
+         # of the wanted key (a reverse rule that is an equivalence is filed under EQUIV, not REVERSE)
+         ghost_stmts={"after:if#0": [
+             "assert implies(reversible_of(normal_rule), len(potential_rules) == 1 + len(children_of(normal_rule)))"]},
+         modifies=["all:Obj('AbstractRule')", "all:List(Obj('Rule'))"],
+         notes="candidates are the pack's rules for the classes of the key (A2: deterministic strategies)")
